@@ -18,6 +18,13 @@ def build(ctx, rounds):
     for _ in range(rounds):
         valid = J.valid_cases(ctx, spell_styles=(0, 1, 2, 3, 4), quick_keys=(ctx.tier == "quick"))
         cases += valid
+        # every token also through the OTHER consuming entry point that accepts its form: plain RFC 7515 tokens handed to
+        # the RFC 7797 functions (which delegate), with the same expectations
+        for c in valid:
+            cross = {"compact": "c7797", "flat": "j7797", "general": "j7797"}.get(c.kind)
+            if cross:
+                cases.append(J.VCase(cross, c.value if isinstance(c.value, bytes) else __import__("copy").deepcopy(c.value), c.key, c.reg, None,
+                                     "valid-via-7797-entry", c.meta))
         for c in valid:
             cases += J.tamper(c, ctx.rng, valid)
     return cases
